@@ -220,7 +220,7 @@ func numericC06(o *Opts) {
 
 func numericC12(o *Opts) {
 	res := NewResult("C12", "quantization", o.Seed, o.Tier)
-	res.Rule = "every one of the 2^b codes and both float neighbours of every breakpoint between adjacent codes for b in {4,8,16} (exhaustive), out-of-range and special values, float32 grid samples for b=32 (all 2^32 values on the implementation in the thorough tier), " +
+	res.Rule = "every one of the 2^b codes, both float neighbours of every breakpoint between adjacent codes and points 1e-7 / 1e-5 / 1e-3 of a step on either side of it (where the nearest level is unambiguous) for b in {4,8,16} (exhaustive), out-of-range and special values, float32 grid samples for b=32 (all 2^32 values on the implementation in the thorough tier), " +
 		"bit-packing round trips for dimensions 1..9 incl. odd dimensions under 4-bit packing; implementation vs Lean model on binary64, bit-exact; non-trivial = every evaluation; distinct = distinct (b, input)"
 	rng := rand.New(rand.NewSource(o.Seed))
 	drv := StartDriver()
@@ -266,6 +266,25 @@ func numericC12(o *Opts) {
 					}
 					if e := math.Abs(syzgydb.VerifDequantize(q, b) - x); e > 1/float64(M)+math.Ldexp(1, -50) {
 						fail("error-bound", fmt.Sprintf("b=%d: |dequantize(quantize(%v)) - x| = %v > 1/M", b, x, e), map[string]any{"bits": b, "x": x})
+					}
+				}
+			}
+			// a little further from the breakpoint than binary64 rounding of (x+1)/2*M can reach (about 1e-11 of a step
+			// at b = 16), the nearest level is unambiguous: below the breakpoint it is k-1, above it k
+			if k > 0 {
+				mid := d - step/2
+				for _, delta := range []float64{1e-3, 1e-5, 1e-7} {
+					lo, hi := mid-delta*step, mid+delta*step
+					for _, pr := range []struct {
+						x    float64
+						want uint64
+					}{{lo, k - 1}, {hi, k}} {
+						if b == 16 && delta != 1e-5 && k%16 != 0 && k < M-64 {
+							continue // 16 bits: every breakpoint at one distance, every 16th (and the top 64) at all three
+						}
+						if q := checkQ(b, pr.x); q != pr.want {
+							fail("not-nearest-level", fmt.Sprintf("b=%d: quantize(%v)=%d, but the nearest level is %d (the input lies %g of a step %s the breakpoint between levels %d and %d)", b, pr.x, q, pr.want, delta, map[bool]string{true: "below", false: "above"}[pr.want == k-1], k-1, k), map[string]any{"bits": b, "x": pr.x})
+						}
 					}
 				}
 			}
